@@ -89,7 +89,8 @@ def _run_checks(patch, checks):
 
 
 def process(prop, extra):
-    src = "/tmp/seed_%s" % prop
+    src = os.environ.get("SEED_SRC_PREFIX", "/tmp/seed_") + prop
+    tag = os.environ.get("SEED_TAG", "")
     for i in (1, 2, 3):
         patch = os.path.join(src, "patch_%d.diff" % i)
         demo = os.path.join(src, "demo_%d.py" % i)
@@ -104,7 +105,7 @@ def process(prop, extra):
         results = run_checks(patch, checks) if v.get("applies") else {}
         for c, r in results.items():
             print("  %s exit=%s %s %s" % (c, r["exit"], r["signatures"][:2], r["message"][:160]))
-        dest = os.path.join(VERIF, "seeded", "%s_%d" % (prop, i))
+        dest = os.path.join(VERIF, "seeded", "%s_%s%d" % (prop, tag, i))
         if confirmed:
             os.makedirs(dest, exist_ok=True)
             shutil.copy(patch, os.path.join(dest, "patch.diff"))
@@ -188,3 +189,13 @@ if __name__ == "__main__":
         index()
     elif sys.argv[1] == "rerun":
         rerun()
+    elif sys.argv[1] == "recheck":
+        # tools_seed.py recheck <seeded dir name> <check ids...> : (re)run the given checks against one kept change
+        name = sys.argv[2]
+        mp = os.path.join(VERIF, "seeded", name, "meta.json")
+        m = json.load(open(mp))
+        res = run_checks(os.path.join(VERIF, "seeded", name, "patch.diff"), sys.argv[3:] or [m["property"]])
+        m["checks_run"].update(res)
+        m["caught_by"] = [c for c, r in m["checks_run"].items() if r["exit"] == 1]
+        json.dump(m, open(mp, "w"), indent=1)
+        print(name, "caught by", m["caught_by"], [r["signatures"][:1] for r in res.values()])
